@@ -381,6 +381,12 @@ func (pb *parserBatch) runMatrices(ctx *Ctx, res *Result) (map[string][][]int, b
 			return nil, false
 		}
 		for i := range rs {
+			if rs[i].MatrixMissing {
+				// the TypeScript file has no table called StateActionArray (a private name a tree may change): the cell-level
+				// comparison is skipped for it; the parsers are still compared on every input
+				res.Count("typescript_table_not_readable_by_name(skipped)", 1)
+				continue
+			}
 			if rs[i].Err == "" {
 				out[rs[i].Parser] = rs[i].Matrix
 			}
